@@ -59,7 +59,7 @@ CLAIMED = {
   "DESIGN.md §3 C09"),
  "C11": ("symgo", "model_checking", TECH_A,
   "Framing layer: F frames with symbolic bodies through the real onReadConn/bufio/io.ReadFull/decode path over a fake connection whose reads are segmented at every feasible length (coalescing and splitting explored): every body exactly once, intact, in order, sender designates the original; 4 MiB boundary job.",
-  "F<=3 frames, bodies <=2 bytes, bounded number of short reads; frames of 4000..8200 bytes around the 4096-byte reader buffer (reads cut by the buffer); connection establishment: real dialler and acceptor handshakes + first frames over a maximally coalescing duplex link, and two goroutines sending through one remoting mailbox, each under every schedule with <= P preemptions (quick 2, thorough 3); real sockets/TLS outside.",
+  "F<=3 frames, bodies <=2 bytes, bounded number of short reads; frames of 4000..8200 bytes around the 4096-byte reader buffer (reads cut by the buffer); connection establishment: real dialler and acceptor handshakes + first frames over a maximally coalescing duplex link, and two goroutines sending through one remoting mailbox, each under every schedule with <= P preemptions (quick 2, thorough 3); an established link idle for longer than the handshake's time limit stays usable (deadline-honouring in-memory link, virtual clock; found and repaired: handshake deadlines never cleared, fix 54df147); real sockets/TLS outside.",
   "DESIGN.md §3 C11"),
  "C12": ("symgo", "model_checking", TECH_A,
   "For every message type in the wire registry: symbolic value (full-width integers, strings/bytes of every length 0..maxlen with symbolic content, nested payloads, valid refs) -> real EncodeEnvelopWithRemoting -> real DecodeEnvelopWithRemoting -> field-wise equality and unchanged envelope metadata; primitive writer/reader agreement for every supported type incl. varints, reflection path and length-prefix boundaries; payload lengths across the writer's buffer-growth boundaries (every length in 190..270 quick, 0..1100 thorough, contents symbolic) for the types with a variable-size field; registry coverage guard.",
